@@ -346,6 +346,25 @@ def parse_corpus(w):
                         if len(probs) >= 3:
                             return {"cases": cases, "reproduced": True, "detail": "; ".join(probs),
                                     "failures": [{"detail": x, "reproduced": True, "witness": {"replay_kind": "codec.parse_corpus"}} for x in probs]}
+    # number values: texts with a numeric prefix or suffix only, wrong separators, too many fields
+    from indi.message.base import IndiMessagePart
+    for tag in ("oneNumber", "defNumber"):
+        for text in ("1.5abc", "abc1.5", "1e5", "0x10", "1,5", "12:3", "12:30:15:10", "12:30:", ":30", "1.5 2", "--1", "1..5", "12;30;", "1.5\n2", "NaN", "inf", "1_000"):
+            e = ET.Element(tag, child_attrs.get(tag, {"name": "c"}) if tag == "defNumber" else {"name": "c"})
+            e.text = text
+            cases += 1
+            try:
+                m = IndiMessagePart.from_xml(e)
+            except Exception:
+                continue
+            p = nonconformities(m, tag)
+            if p:
+                probs.append("%s text=%r: %s" % (tag, text, "; ".join(p)))
+                if len(probs) >= 3:
+                    break
+    if probs:
+        return {"cases": cases, "reproduced": True, "detail": "; ".join(probs[:3]),
+                "failures": [{"detail": x, "reproduced": True, "witness": {"replay_kind": "codec.parse_corpus"}} for x in probs[:3]]}
     return {"cases": cases, "reproduced": False, "detail": "every accepted element is conformant", "failures": []}
 
 
